@@ -31,6 +31,9 @@ TIES = {
                   lambda: __import__("agg2v").translate(REPO),
                   ("Mgr", "AggSrc.v"), ("Mgr", "AggSrcEq.v"), "From V Require Import Scan.PySem Mgr.Aggregate Mgr.AggSrc.",
                   "From V Require Import Scan.PySem Mgr.Aggregate.\nFrom Tie Require Import AggSrc.", "rm_is_valid_src_eq, all_valid_src_eq"),
+    "adjudicate": ("Matcher.matches (csvpath/matching/matcher.py)", lambda: __import__("mat2v").translate(REPO),
+                   ("Match", "AdjSrc.v"), ("Match", "AdjSrcEq.v"), "From V Require Import Scan.PySem Run.RunSem Match.Adjudicate Match.AdjSrc.",
+                   "From V Require Import Scan.PySem Run.RunSem Match.Adjudicate.\nFrom Tie Require Import AdjSrc.", "matches_loop_src_eq, matches_src_eq"),
 }
 
 
